@@ -2250,6 +2250,18 @@ fn round_dropsend(seed: u64, hb: &Heartbeat, tot: &Mutex<Tot>, prop: &str) {
             let _ = el;
         }
     }
+    // a failed delivery made by a destructor while its thread unwinds from a panic is a failed delivery like any other: it
+    // records exactly one dead letter
+    let dl_before = UNATTRIBUTED_DEAD_LETTERS.load(Ordering::SeqCst);
+    {
+        let d = dead.clone();
+        let _ = std::thread::spawn(move || {
+            let _lease = PanicLease(d);
+            panic!("scripted unwinding while a guard that sends is alive");
+        })
+        .join();
+    }
+    let dl_unwind = UNATTRIBUTED_DEAD_LETTERS.load(Ordering::SeqCst) - dl_before;
     let stalled = hb.max_late_since(bucket0) > STALL_US;
     // every dropped lease reported to the collector
     std::thread::sleep(Duration::from_millis(20));
@@ -2273,8 +2285,12 @@ fn round_dropsend(seed: u64, hb: &Heartbeat, tot: &Mutex<Tot>, prop: &str) {
     if got == ncalls && reported != ncalls && !stalled {
         v.push(("C17.same_rules", format!("[dropsend] {ncalls} leases were dropped undelivered but the collector handled {reported} reports (the destructor's own blocking_tell(Some(500 ms)) to a live idle actor did not deliver exactly once)")));
     }
+    *t.obl.entry("C13.one_per_failure").or_default() += 1;
+    if got == ncalls && dl_unwind != 1 {
+        v.push(("C13.one_per_failure", format!("[dropsend] a guard's destructor ran while its thread was unwinding from a panic and made a blocking_tell(None) to a stopped actor (which fails): {dl_unwind} dead letter(s) were recorded for it instead of 1")));
+    }
     for (c, m) in v {
-        if prop == "all" || prop == "C17" || prop == "C03" {
+        if prop == "all" || prop == "C17" || prop == "C03" || (prop == "C13" && c.starts_with("C13")) {
             t.viol.push((c.into(), m, seed, "dropsend".into()));
         }
     }
@@ -2430,6 +2446,18 @@ mod hk {
             tokio::task::block_in_place(move || if m.1 { m.0.blocking_ask(Inner(me2), None).ok() } else { m.0.blocking_ask(Inner(me2), Some(std::time::Duration::from_secs(5))).ok() })
         }
     }
+    /// a timed blocking ask made directly from the handler (no block_in_place), to the actor itself: it can only time out
+    pub struct SelfBlock(pub u64);
+    impl Message<SelfBlock> for N {
+        type Reply = Option<bool>;
+        async fn handle(&mut self, m: SelfBlock, me: &ActorRef<Self>) -> Option<bool> {
+            match me.blocking_ask(Ping, Some(std::time::Duration::from_millis(m.0))) {
+                Err(rsactor::Error::Timeout { .. }) => Some(true),
+                Err(_) => Some(false),
+                Ok(_) => None,
+            }
+        }
+    }
     impl Message<Inner> for N {
         type Reply = u8;
         async fn handle(&mut self, m: Inner, me: &ActorRef<Self>) -> u8 {
@@ -2472,6 +2500,17 @@ fn round_hookblocking(seed: u64, hb: &Heartbeat, tot: &Mutex<Tot>, prop: &str) {
                 Err(_) => {
                     viol.push(format!("iteration {i}: a handler's blocking_ask through block_in_place had not returned after 15 s"));
                     break;
+                }
+            }
+            if i % 5 == 2 {
+                // "the timeout variants can also be called from inside an async runtime context": a handler asks its own actor with
+                // blocking_ask(Some(20 ms)) - nobody can answer while the handler blocks, so the call returns Timeout at its deadline
+                match tokio::time::timeout(Duration::from_secs(15), front.ask(SelfBlock(20))).await {
+                    Ok(Ok(Some(true))) => {}
+                    other => {
+                        viol.push(format!("iteration {i}: a handler's blocking_ask(Some(20 ms)) to its own (busy) actor should return Timeout, got {other:?} (None = it was answered, Some(false) = another error)"));
+                        break;
+                    }
                 }
             }
             // wait for the ask-back to be over
@@ -2616,6 +2655,13 @@ mod ab {
             } else {
                 Ok(false)
             }
+        }
+    }
+    /// a guard whose destructor sends (untimed blocking tell) - used while its thread is unwinding from a panic
+    pub struct PanicLease(pub ActorRef<A>);
+    impl Drop for PanicLease {
+        fn drop(&mut self) {
+            let _ = self.0.blocking_tell(Work(0, 0), None);
         }
     }
     /// a message that is large inline (32 KiB on the stack of whoever moves it)
